@@ -33,6 +33,8 @@ type interp struct {
 	text  string  // string kinds
 	b     bool
 	list  []float64
+	strs  []string // []string fields
+	bools []bool   // []bool fields
 	m     map[string]float64
 	inner *Tok // nested: token of x (nil = x absent)
 	fuzzy bool // contains null elements: target not compared
@@ -195,6 +197,65 @@ func interpret(f Field, dc string, t Tok) interp {
 			if t.V == "1" && strSourced(dc) {
 				return interp{st: stAlt, list: []float64{1}}
 			}
+		}
+		return ill
+	case f.Kind == KSliceB:
+		switch t.T {
+		case "list":
+			ip := interp{st: stOK, bools: []bool{}}
+			for _, e := range t.E {
+				switch {
+				case e.T == "null":
+					ip.fuzzy, ip.st = true, stAlt
+					ip.bools = append(ip.bools, false)
+				case e.T == "bool" && !strSourced(dc), e.T == "str" && (dc == "form" || dc == "header") && (e.V == "true" || e.V == "false"):
+					ip.bools = append(ip.bools, e.V == "true")
+				default:
+					return ill
+				}
+			}
+			if dc == "header" {
+				ip.st = stAlt // multi-valued header: no documented demand
+			}
+			return ip
+		case "str": // a JSON text / a single value: convertible, not canonical
+			if t.V == "[true,false]" {
+				return interp{st: stAlt, bools: []bool{true, false}}
+			}
+			if t.V == "true" && strSourced(dc) {
+				return interp{st: stAlt, bools: []bool{true}}
+			}
+		}
+		return ill
+	case f.Kind == KSliceS:
+		switch t.T {
+		case "list":
+			ip := interp{st: stOK, strs: []string{}}
+			for _, e := range t.E {
+				switch e.T {
+				case "str":
+					ip.strs = append(ip.strs, e.V)
+				case "num", "bool": // convertible, not the canonical rendering of a string element
+					ip.st = stAlt
+					ip.strs = append(ip.strs, e.V)
+				case "null":
+					ip.fuzzy, ip.st = true, stAlt
+					ip.strs = append(ip.strs, "")
+				default:
+					return ill
+				}
+			}
+			if dc == "header" {
+				ip.st = stAlt // multi-valued header: no documented demand
+			}
+			return ip
+		case "str":
+			// one string for a list of strings (a JSON text, a single element, a separated list …):
+			// no documented reading, so neither the verdict nor the value is pinned
+			if t.V == `["a","b"]` {
+				return interp{st: stAlt, strs: []string{"a", "b"}}
+			}
+			return interp{st: stAlt, fuzzy: true}
 		}
 		return ill
 	case f.Kind == KMap:
@@ -391,7 +452,7 @@ func mustAccept(entry string, fs []Field, toks []Tok) bool {
 			}
 			continue
 		}
-		if !f.Kind.scalar() && strSourced(dc) && !(f.Kind == KSlice && dc == "form") {
+		if !f.Kind.scalar() && strSourced(dc) && !(f.Kind.slice() && dc == "form") {
 			return false // structs, maps (and slices outside forms) have no documented string rendering
 		}
 		ip := interpret(f, dc, t)
@@ -430,8 +491,28 @@ func defaultInterp(f Field) (interp, bool) {
 		return interp{b: f.Def == "true"}, true
 	case f.Kind == KSlice:
 		return interp{list: []float64{1, 2}}, true
+	case f.Kind == KSliceS:
+		return interp{strs: defaultList(f.Def)}, true
+	case f.Kind == KSliceB:
+		ip := interp{bools: []bool{}}
+		for _, e := range defaultList(f.Def) {
+			ip.bools = append(ip.bools, e == "true")
+		}
+		return ip, true
 	}
 	return interp{}, false
+}
+
+// defaultList: the elements of a default=[x,y,…] text.
+func defaultList(def string) []string {
+	def = strings.TrimSuffix(strings.TrimPrefix(def, "["), "]")
+	out := []string{}
+	for _, p := range strings.Split(def, ",") {
+		if p = strings.TrimSpace(p); p != "" {
+			out = append(out, p)
+		}
+	}
+	return out
 }
 
 // holdsValue: does rv (a field of kind f.Kind) hold the value ip?
@@ -463,6 +544,26 @@ func holdsValue(f Field, rv reflect.Value, ip interp) bool {
 			}
 		}
 		return true
+	case f.Kind == KSliceB:
+		if rv.Len() != len(ip.bools) {
+			return false
+		}
+		for i := range ip.bools {
+			if rv.Index(i).Bool() != ip.bools[i] {
+				return false
+			}
+		}
+		return true
+	case f.Kind == KSliceS:
+		if rv.Len() != len(ip.strs) {
+			return false
+		}
+		for i := range ip.strs {
+			if rv.Index(i).String() != ip.strs[i] {
+				return false
+			}
+		}
+		return true
 	case f.Kind == KMap:
 		if rv.Len() != len(ip.m) {
 			return false
@@ -480,7 +581,7 @@ func holdsValue(f Field, rv reflect.Value, ip interp) bool {
 
 func isZero(f Field, rv reflect.Value) bool {
 	switch f.Kind {
-	case KSlice, KMap:
+	case KSlice, KMap, KSliceS, KSliceB:
 		return rv.Len() == 0
 	}
 	return rv.IsZero()
